@@ -176,8 +176,11 @@ impl Callable for Access {
             } else {
                 bail!("Can not access a tuple with: {}", index)
             };
-            if let Type::Tuple(mut t) = obj {
-                Ok(t.remove(*index as usize))
+            if let Type::Tuple(t) = obj {
+                usize::try_from(*index)
+                    .ok()
+                    .and_then(|i| t.into_iter().nth(i))
+                    .ok_or_else(|| err_msg(format!("tuple index out of range: {}", index)))
             } else {
                 bail!("Can not access type: {}", obj)
             }
@@ -227,7 +230,11 @@ impl Callable for Access {
                 bail!("Can not access a tuple with: {}", index)
             };
             if let Value::Tuple(t) = obj {
-                t[*index as usize].value_of(ctx)
+                usize::try_from(*index)
+                    .ok()
+                    .and_then(|i| <[Value]>::get(&t, i))
+                    .ok_or_else(|| err_msg(format!("tuple index out of range: {}", index)))?
+                    .value_of(ctx)
             } else {
                 bail!("Can not access type: {}", obj)
             }
